@@ -1707,4 +1707,21 @@ Section Spec.
     split; [|split; assumption]. intros e E. destruct (HE e E) as (K1 & K2 & _). split; [exact K1|]. split; [exact K2|].
     unfold load_file. rewrite (norun_loadable _ K2). reflexivity.
   Qed.
+
+  (* (3'), composed: under the two guards the checkpoint image resumes to the uninterrupted end of the ORIGINAL graph *)
+  Theorem checkpoint_resume t c t1 evs l : Start t -> attempt (Some c) t = (t1, evs, RCut) -> load_file t1 = Some l ->
+    let t2 := clear_running (recover fixv l) in
+    exists t' U evU, final (S (nbad t)) t2 = Some t' /\ attempt None (fixall fixv t) = (U, evU, ROk) /\ outputs t' = outputs U /\
+      forall t3 ev2 r2, attempt None t2 = (t3, ev2, r2) ->
+        (forall q, In q (calls ev2) -> ~ In q (done_leaves t1)) /\ (r2 = ROk -> calls ev2 = undone_leaves t1).
+  Proof.
+    intros HS HA HL. destruct (checkpoint_restart t c t1 evs l HS HA HL) as (S2 & D2 & Dn & Un & Nb & _). cbv zeta in *.
+    destruct (final_ok (nbad t) _ S2 Nb) as (t' & F1 & F2 & _).
+    destruct (twin_ok t HS) as (U & evU & HU & OU & _). exists t', U, evU.
+    split; [exact F1|]. split; [exact HU|]. split; [congruence|].
+    intros t3 ev2 r2 HA2. split.
+    - rewrite <- Dn. eapply no_recall; eauto.
+    - intros ->. destruct (attempt_sem _ None t3 ev2 ROk S2 HA2) as (_ & _ & _ & HOk & _).
+      destruct (HOk eq_refl) as (_ & _ & _ & C3). rewrite C3. exact Un.
+  Qed.
 End Spec.
